@@ -286,22 +286,25 @@ func (a *AggregationProcess) ForAllExpiredFlowRecordsDo(callback FlowKeyRecordMa
 		}
 		err := callback(*pqItem.flowKey, pqItem.flowRecord)
 		if err != nil {
+			// Put the item back in the priority queue with its expire times unchanged, so
+			// that the flow record is not left in the map without an expiry and is handed
+			// to the callback again by the next call.
+			heap.Push(&a.expirePriorityQueue, pqItem)
 			return fmt.Errorf("callback execution failed for popped flow record with key: %v, record: %v, error: %v", pqItem.flowKey, pqItem.flowRecord, err)
 		}
 		// Delete the flow record if it is expired because of inactive expiry timeout.
-		if pqItem.inactiveExpireTime.Before(currTime) {
+		if !pqItem.inactiveExpireTime.After(currTime) {
 			if err = a.deleteFlowKeyFromMapWithoutLock(*pqItem.flowKey); err != nil {
 				return fmt.Errorf("error while deleting flow record after inactive expiry: %v", err)
 			}
 			continue
 		}
-		// Reset the expireTime for the popped item and push it to the priority queue.
-		if pqItem.activeExpireTime.Before(currTime) {
-			// Reset the active expire timeout and push the record into priority
-			// queue.
+		// Reset the active expire timeout if it has elapsed, and push the popped item back
+		// into the priority queue: a record that stays in the map always has an expiry.
+		if !pqItem.activeExpireTime.After(currTime) {
 			pqItem.activeExpireTime = currTime.Add(a.activeExpiryTimeout)
-			heap.Push(&a.expirePriorityQueue, pqItem)
 		}
+		heap.Push(&a.expirePriorityQueue, pqItem)
 	}
 	return nil
 }
